@@ -19,6 +19,14 @@ U(r) == [cur |-> r.cur, des |-> r.des, plan |-> r.plan, res |-> r.res, aborted |
 
 SameMountPoint(a, b) == a.d = b.d /\ a.t = b.t
 
+\* observable cause of "log[pr[1]] is unmounted while log[pr[2]], mounted beneath it later, is kept"
+StrandCause(u, log, pr) ==
+    IF \E k \in Keeps(u) : u.plan[k].e # log[pr[2]] /\ SameMountPoint(u.plan[k].e, log[pr[2]])
+    THEN "/kept-entry-has-same-dir-and-type-as-another-kept-entry"
+    ELSE IF log[pr[1]].g = "overname" \/ log[pr[2]].g = "overname" THEN "/overname-entry-involved"
+    ELSE IF \E k \in Keeps(u) : u.plan[k].e.p = log[pr[1]].p THEN "/entry-in-same-directory-kept"
+    ELSE ""
+
 \* violated clauses of one update; sub-classes name the observable cause so that a known finding can be
 \* told apart from any other way of violating the same clause
 Tags(r, log) ==
@@ -47,12 +55,7 @@ Tags(r, log) ==
  \cup (IF UnmountOrderTrue(u, log) THEN {}
        ELSE IF UnmountOrder(u) THEN {"UnmountOrderTrue/profile-is-not-in-mount-order"}
             ELSE {"UnmountOrderTrue"})
- \cup (IF UnmountStrandsNothing(u, log) THEN {}
-       ELSE IF \A pr \in UnmountStrandsBad(u, log) : log[pr[1]].g = "overname" \/ log[pr[2]].g = "overname"
-            THEN {"UnmountOrder.entry-beneath-stays-kept/overname-entry-involved"}
-       ELSE IF \A pr \in UnmountStrandsBad(u, log) : \E k \in Keeps(u) : u.plan[k].e.p = log[pr[1]].p
-            THEN {"UnmountOrder.entry-beneath-stays-kept/entry-in-same-directory-kept"}
-            ELSE {"UnmountOrder.entry-beneath-stays-kept"})
+ \cup {"UnmountOrder.entry-beneath-stays-kept" \o StrandCause(u, log, pr) : pr \in UnmountStrandsBad(u, log)}
  \cup (IF MountOrder(u) THEN {}
        ELSE IF \A pr \in MountOrderBad(u) : u.plan[pr[1]].e.k = "ensure-dir"
             THEN {"MountOrder/child-is-ensure-dir"}
